@@ -262,10 +262,6 @@ class CheckValueSpec(FunctionSpec):
 
 
 # ------------------------------------------------------------------------------------------------
-def caption_norm(cap):
-    return SStr("") if cap is SNone else cap
-
-
 @register
 class QuantityInitSpec(FunctionSpec):
     """Quantity.__init__, simple branch: establishes QI or raises with the registry unchanged
@@ -292,6 +288,14 @@ class QuantityInitSpec(FunctionSpec):
     def allowed_write(self, I, ctx, obj, what):
         return obj is ctx["self"].o or FunctionSpec.allowed_write(self, I, ctx, obj, what)
 
+    def bind_call(self, I, f, args, kwargs):
+        ctx = FunctionSpec.bind_call(self, I, f, args, kwargs)
+        R = I.P.ghost["reg"]
+        ctx["R"], ctx["st"] = R, R.snapshot()
+        if ctx["category"].pytype() == "OrderedDict":
+            raise OutOfSubset("derived Quantity.__init__ through the simple-branch contract")
+        return ctx
+
     def resolution(self, R, st, c, u):
         """(guard_ok_direct, guard_ok_legacy, resolved unit term)"""
         v1 = R.valid(c, u, st)
@@ -302,16 +306,38 @@ class QuantityInitSpec(FunctionSpec):
         R, st = ctx["R"], ctx["st"]
         c, u, cap = ctx["category"], ctx["unit"], ctx["unknown_unit_caption"]
         self_ = ctx["self"]
+        if not isinstance(c, SStr):
+            return [rai("non-str-category", T, "TypeError", props=("C05",))]
+        if not (u is SNone or isinstance(u, SStr)) or not (cap is SNone or isinstance(cap, SStr)):
+            return [unspecified("non-str unit/caption", T)]
         cdom = S(st["C_dom"], c.name)
+        is_call = ctx.get("$call")
+
+        def eff(ures):
+            if not is_call:
+                return None
+
+            def apply(I):
+                from .obtain import havoc_memo
+
+                havoc_memo(I, R)
+                fill_simple_fields(I, self_.o, R, I.P.ghost["db"], c.name, ures, cap, st)
+
+            return apply
+
+        def chk(ures):
+            return None if is_call else self.qi_check(ctx, ures)
+
+        val = SNone if is_call else None
         out = [rai("unknown-category", z3.Not(cdom), "InvalidQuantityTypeError", props=("C05",))]
         if u is SNone:
             ures = S(st["C_du"], c.name)
-            out.append(ret("default-unit", cdom, props=("C07", "C02"), check=self.qi_check(ctx, ures)))
+            out.append(ret("default-unit", cdom, val, props=("C07", "C02"), check=chk(ures), effects=eff(ures)))
             return out
         v1, v2 = self.resolution(R, st, c.name, u.name)
-        out.append(ret("valid-unit", z3.And(cdom, v1), props=("C07", "C02", "C05"), check=self.qi_check(ctx, u.name)))
-        out.append(ret("legacy-unit", z3.And(cdom, v2), props=("C16",), check=self.qi_check(ctx, fixf(u.name))))
-        out.append(rai("invalid-unit", z3.And(cdom, z3.Not(v1), z3.Not(v2)), "InvalidUnitError", props=("C05",)))
+        out.append(ret("valid-unit", z3.And(cdom, v1), val, props=("C07", "C02", "C05"), check=chk(u.name), effects=eff(u.name)))
+        out.append(ret("legacy-unit", z3.And(cdom, v2), val, props=("C16",), check=chk(fixf(u.name)), effects=eff(fixf(u.name))))
+        out.append(rai("invalid-unit", z3.And(cdom, z3.Not(v1), z3.Not(v2)), "InvalidUnitError", props=("C05",), effects=(lambda I: __import__("contracts.obtain", fromlist=["havoc_memo"]).havoc_memo(I, R)) if is_call else None))
         return out
 
     def qi_check(self, ctx, ures):
